@@ -9,6 +9,11 @@ type nat =
 | O
 | S of nat
 
+(** val fst : ('a1 * 'a2) -> 'a1 **)
+
+let fst = function
+| (x, _) -> x
+
 (** val snd : ('a1 * 'a2) -> 'a2 **)
 
 let snd = function
